@@ -92,8 +92,40 @@ class _Canon(ast.NodeTransformer):
             self.stats['canon_unstar'] = self.stats.get('canon_unstar', 0) + 1
         return n
 
+    def _fold_percent(self, n):
+        """'%s*%i*%s' % ('GE', a, b)  ->  'GE*%i*%s' % (a, b): constant string arguments of plain %s fields are
+        written into the template"""
+        import re as _re
+        if not (isinstance(n.op, ast.Mod) and isinstance(n.left, ast.Constant) and isinstance(n.left.value, str)
+                and isinstance(n.right, ast.Tuple)):
+            return n
+        parts = _re.split(r'(%%|%[-#0 +]*[0-9*]*(?:\.[0-9*]+)?[a-zA-Z])', n.left.value)
+        specs = [p_ for p_ in parts if p_.startswith('%') and p_ != '%%' and len(p_) > 1]
+        if len(specs) != len(n.right.elts):
+            return n
+        out, args, k, folded = [], [], 0, 0
+        for p_ in parts:
+            if p_.startswith('%') and p_ != '%%' and len(p_) > 1:
+                a = n.right.elts[k]
+                k += 1
+                if p_ == '%s' and isinstance(a, ast.Constant) and isinstance(a.value, str):
+                    out.append(a.value.replace('%', '%%'))
+                    folded += 1
+                else:
+                    out.append(p_)
+                    args.append(a)
+            else:
+                out.append(p_)
+        if not folded or not args:
+            return n
+        n.left = ast.copy_location(ast.Constant(value=''.join(out)), n.left)
+        n.right = ast.copy_location(ast.Tuple(elts=args, ctx=ast.Load()), n.right)
+        self.stats['canon_fold_percent'] = self.stats.get('canon_fold_percent', 0) + 1
+        return n
+
     def visit_BinOp(self, n):
         self.generic_visit(n)
+        n = self._fold_percent(n)
         if isinstance(n.op, (ast.Add, ast.Mult)) and isinstance(n.left, ast.Constant) and type(n.left.value) is int \
                 and not isinstance(n.right, ast.Constant):
             n.left, n.right = n.right, n.left
@@ -110,6 +142,14 @@ class _Canon(ast.NodeTransformer):
 
     def visit_If(self, n):
         self.generic_visit(n)
+        # if c: pass else: B   ->   if not c: B
+        if n.orelse and all(isinstance(x, ast.Pass) for x in n.body):
+            neg = ast.UnaryOp(op=ast.Not(), operand=n.test)
+            ast.copy_location(neg, n.test)
+            n.test = self.visit(neg)
+            n.body, n.orelse = n.orelse, []
+            self.stats['canon_if_pass_else'] = self.stats.get('canon_if_pass_else', 0) + 1
+            return n
         # if not c: A else: B   ->   if c: B else: A     (an elif chain in the else arm is left alone)
         if isinstance(n.test, ast.UnaryOp) and isinstance(n.test.op, ast.Not) and n.orelse \
                 and not (len(n.orelse) == 1 and isinstance(n.orelse[0], ast.If)):
@@ -1021,6 +1061,54 @@ def unguard_continue(fn, stats):
     ast.fix_missing_locations(fn)
 
 
+def unroll_constant_loops(fn, stats):
+    """N7: `for x in (a, b, c): BODY` over a short literal tuple/list without break/continue/else becomes
+    x = a; BODY; x = b; BODY; ...  and `for x in A if c else B` is split on c first"""
+    changed = True
+    rounds = 0
+    while changed and rounds < 30:
+        changed = False
+        rounds += 1
+        for owner in ast.walk(fn):
+            for field in ('body', 'orelse', 'finalbody'):
+                blk = getattr(owner, field, None)
+                if not isinstance(blk, list) or not blk or not isinstance(blk[0], ast.stmt):
+                    continue
+                for i, s in enumerate(blk):
+                    if not isinstance(s, ast.For) or s.orelse:
+                        continue
+                    if isinstance(s.iter, ast.IfExp) and is_pure(s.iter.test):
+                        a = ast.For(target=clone(s.target), iter=s.iter.body, body=clone(s.body), orelse=[])
+                        b = ast.For(target=clone(s.target), iter=s.iter.orelse, body=clone(s.body), orelse=[])
+                        new = ast.If(test=s.iter.test, body=[ast.copy_location(a, s)], orelse=[ast.copy_location(b, s)])
+                        blk[i] = ast.copy_location(new, s)
+                        changed = True
+                        break
+                    if not isinstance(s.iter, (ast.Tuple, ast.List)) or not (1 <= len(s.iter.elts) <= 8):
+                        continue
+                    if not all(is_pure(e) for e in s.iter.elts) or any(isinstance(e, ast.Starred) for e in s.iter.elts):
+                        continue
+                    inner = [x for st in s.body for x in ast.walk(st)]
+                    if any(isinstance(x, (ast.Break, ast.Continue, ast.Yield, ast.YieldFrom)) for x in inner):
+                        continue
+                    if sum(1 for _ in inner) > 120:
+                        continue
+                    out = []
+                    for e in s.iter.elts:
+                        asg = ast.Assign(targets=[clone(s.target)], value=clone(e))
+                        out.append(ast.copy_location(asg, s))
+                        out.extend(clone(s.body))
+                    blk[i:i + 1] = out
+                    stats['loops_unrolled'] = stats.get('loops_unrolled', 0) + 1
+                    changed = True
+                    break
+                if changed:
+                    break
+            if changed:
+                break
+    ast.fix_missing_locations(fn)
+
+
 def expand_tables(tree, cls, fn, stats):
     tabs = _table_defs(tree, cls, fn)
     if not tabs:
@@ -1266,6 +1354,7 @@ def normalize_module(modname, tree, stats, pkg_dir=None):
         cls = classes.get(q.split('.')[0]) if '.' in q else None
         expand_tables(tree, cls, f, stats)
         unguard_continue(f, stats)
+        unroll_constant_loops(f, stats)
         try:
             copy_propagate(f, ms, stats)
         except RecursionError:
